@@ -46,6 +46,10 @@ structure Ops (α : Type) where
   pi : α
   ofNat : Nat → α
   lt : α → α → Bool
+  /-- round to the nearest integer (`numpy.round` / `numpy.rint`: ties to even) -/
+  rint : α → α
+  /-- largest integer not above the argument -/
+  floor : α → α
 
 /-- decode magnitude/phase stored with `bits` bits: `m·(cos θ, sin θ)`, `θ = p·2π/2^bits` -/
 def decodeMP {α : Type} (S : Ops α) (bits : Nat) (m p : α) : α × α :=
@@ -58,6 +62,24 @@ def encodeMP {α : Type} (S : Ops α) (bits : Nat) (x y : α) : α × α :=
   let th := S.atan2 y x
   let th' := if S.lt th (S.ofNat 0) then S.add th (S.mul (S.ofNat 2) S.pi) else th
   (mag, S.div (S.mul th' (S.ofNat (2 ^ bits))) (S.mul (S.ofNat 2) S.pi))
+
+/-- reduction modulo `2^bits` of an integer-valued scalar: what the C cast into the unsigned raw dtype does to the rounded
+    phase (`round(t)` can be exactly `2^bits` for `t ≥ 2^bits - 1/2`; the stored value is then `0`) -/
+def wrapPow {α : Type} (S : Ops α) (bits : Nat) (r : α) : α :=
+  S.sub r (S.mul (S.floor (S.div r (S.ofNat (2 ^ bits)))) (S.ofNat (2 ^ bits)))
+
+/-- the quantised encoder, `ComplexFormatFunction._reverse_magnitude_theta` for uint8/16/32 (format_function.py 826-845):
+    `theta = numpy.round(theta * 2^bits/(2π))`, `magnitude = numpy.round(magnitude)`, then the assignment into the unsigned
+    raw array (phase reduced mod `2^bits`).  The magnitude is NOT reduced here: `round(|z|) ≥ 2^bits` is outside the
+    representable range (the cast of such a value is outside this model, see Props.C08 `encQ_mag_range`). -/
+def encodeMPq {α : Type} (S : Ops α) (bits : Nat) (x y : α) : α × α :=
+  let e := encodeMP S bits x y
+  (S.rint e.1, wrapPow S bits (S.rint e.2))
+
+/-- the cast of a float into a signed integer raw dtype for plain IQ / QI data (no rounding step in
+    `ComplexFormatFunction._reverse_functional_step`): truncation toward zero -/
+def truncZero {α : Type} (S : Ops α) (x : α) : α :=
+  if S.lt x (S.ofNat 0) then S.sub (S.ofNat 0) (S.floor (S.sub (S.ofNat 0) x)) else S.floor x
 
 /-! ### amplitude table (AMP8I_PHS8I): index of the nearest entry of a non-decreasing table -/
 
@@ -76,5 +98,11 @@ def nearestIndex {α : Type} (lt : α → α → Bool) (sub : α → α → α) 
 /-! ### per-vector amplitude scale factor (CPHD / CRSD) -/
 
 def decodeAmpSF {α : Type} (mul : α → α → α) (sf : α) (iq : α × α) : α × α := (mul sf iq.1, mul sf iq.2)
+
+/-- `AmpScalingFunction._reverse_functional_step` for integer raw dtypes (cphd.py 150-160): `data = (1/sf)·data`,
+    `data = numpy.rint(data)`, then the IQ assignment into the signed raw array (exact for in-range values) -/
+def encodeAmpSF {α : Type} (S : Ops α) (sf : α) (z : α × α) : α × α :=
+  let inv := S.div (S.ofNat 1) sf
+  (S.rint (S.mul inv z.1), S.rint (S.mul inv z.2))
 
 end Sarpy.Spec.Codec
